@@ -20,6 +20,18 @@ CLAIMED = {
    text="Bit-precise (BV64 + IEEE-754) proof that SSH validity never wraps, starts now and is at most duration/1s+1, with time.Duration.Seconds inlined from the standard library; X.509 NotBefore=now, NotAfter=now+duration at the CreateCertificate call sites; certGenHandler reaches the signers only with duration <= 24h and now+duration <= issuedAt+24h; role certificates carry exactly 45 days.",
    note=TRUST + "float64->uint64 modelled as lowered on amd64; one clock instant per request; time values within 1970..2116.",
    design="7 (C03)"),
+ "C04": dict(
+   text="Deductive proof, per consumer of signed artefacts (session/CLI tokens via getAuthInfoFromJWT, cookie re-signing, signed storage records), that acceptance implies: signature verifies under a published keymaster key, issuer and first audience are this server, the kind field is the one the consumer expects, nbf has passed (and exp for storage records); and that every verifier list handed to jwt.ParseSigned contains only asymmetric algorithms (map invariant with a quantifier over keys), so 'none'/HMAC can never be accepted.",
+   note=TRUST + "go-jose is a trusted contract (ParseSigned rejects unlisted algorithms; Claims returns nil only for a verifying key and then fills the destination with the signed payload). The OIDC code/access-token consumers are claimed under C12. GetSigned itself (goroutine+select) is outside the subset.",
+   design="7 (C04)"),
+ "C05": dict(
+   text="Deductive proof of the per-operation invariant behind the history property: every one of the nine sites that re-sign a session cookie with more factor bits is reached only when each new bit was verified in this request for the very user checkAuth established (ghost bit-set reset by checkAuth and extended by call-site ghost assignments on the VIP/Okta/TOTP/U2F/webauthn/bootstrap verifiers), the cookie that is upgraded belongs to that user, hardware-token challenges and bootstrap OTPs are consumed before the upgrade, an already accepted TOTP period is never evaluated again, expired bootstrap OTPs yield no hash.",
+   note=TRUST + "Verdicts of the VIP/Okta services and of the u2f/webauthn/totp libraries are uninterpreted call results. Concurrent presentation of one-time values is C16 territory and not covered.",
+   design="7 (C05)"),
+ "C06": dict(
+   text="Deductive proof of checkAuth against its contract: success implies the returned level intersects the endpoint's mask, the identity/level/issue time were established by a verified unexpired keymaster_auth cookie, by a keymaster-signed non-deny-listed client certificate, by an IP-restricted certificate used inside its netblocks by an automation identity whose key is not deny-listed, or by a back-end accepted password after a limiter token; non-GET requests with a foreign Origin/Referer host are refused. The signing wrappers require the ghost 'authenticated' flag that only checkAuth's success sets, and call-graph rules pin the lib/certgen signers to those wrappers.",
+   note=TRUST + "Only the certificate-issuing handlers are covered by effect preconditions so far (profile/token effects are claimed under C08 when built); TLS chain verification is trusted (crypto/tls heap invariant).",
+   design="7 (C06)"),
  "C10": dict(
    text="Deductive proof that ValidatePublicKeyStrength accepts exactly the property's strong keys (RSA >= 2048 bits and e >= 65537, NIST >= 256, Ed25519) and that every signing wrapper (SSH, X.509, Kubernetes, automation, refresh) is reached only with a key for which that predicate holds; no-panic obligations (index, nil, type assertion) for the address-extension decoder and the SSH key validator.",
    note=TRUST + "Parsers (x509, ssh, asn1) are trusted to return well-shaped values (type invariant of asn1.BitString; NIST curve sizes). The cloud-role path and panics inside dependency parsers are not covered.",
@@ -32,6 +44,10 @@ CLAIMED = {
    text="String-theory proof that CanRedirectToURL accepts only https, no query, no '..', a host equal to or a subdomain of a configured domain (exists-quantified over the list), a matching pattern when patterns are configured, nothing when unconfigured; the authorization handler redirects only to a prefix approved by that function (ghost state); same host rule for CORS origins.",
    note=TRUST + "url.Parse/Hostname and regexp.MatchString are uninterpreted trusted contracts; browsers' divergent URL parsing is out of scope.",
    design="7 (C13)"),
+ "C14": dict(
+   text="Deductive proof with a linear ghost token: checkUserPassword (the only caller of the back end, by a call-graph rule) requires a token that only a true rate.Limiter.Allow() grants, at both entry points (login form and basic-auth); validateUserTOTP evaluates a code only if two seconds have passed since the user's last check and no lock-out is in force, counts failures, locks out for an hour at every fifth failure and resets on success.",
+   note=TRUST + "The numeric rate of the token bucket is rate.Limiter's; concurrent attempts are not covered.",
+   design="7 (C14)"),
  "C17": dict(
    text="Deductive proof (weakest preconditions over go/ssa, SMT) that getLoginDestination returns only same-origin paths as the property defines them, "
         "for every submitted string, and that every redirect site in the package passes such a value or satisfies its own listed clause; unbounded in the input.",
